@@ -348,7 +348,21 @@ func visitInstr(fr *frame, instr ssa.Instruction) continuation {
 		fr.set(instr, makeMap(instr.Type().Underlying().(*types.Map).Key(), 0))
 
 	case *ssa.Range:
-		fr.set(instr, rangeIter(fr.get(instr.X), instr.X.Type()))
+		it := rangeIter(fr.get(instr.X), instr.X.Type())
+		if mi, ok := it.(*mapIter); ok && len(mi.keys) > 1 && i.P.params["maporder"] == 2 {
+			// Go leaves map iteration order unspecified: explore sorted and
+			// reversed order (one decision per path)
+			if !p.mapOrderDecided {
+				p.mapOrderDecided = true
+				p.mapRev = i.choose(0, 1) == 1
+			}
+			if p.mapRev {
+				for a, b := 0, len(mi.keys)-1; a < b; a, b = a+1, b-1 {
+					mi.keys[a], mi.keys[b] = mi.keys[b], mi.keys[a]
+				}
+			}
+		}
+		fr.set(instr, it)
 
 	case *ssa.Next:
 		fr.set(instr, fr.get(instr.Iter).(iter).next())
